@@ -202,7 +202,8 @@ impl BatchOptions {
             .unwrap_or_else(|| std::thread::available_parallelism().map(|n| n.get()).unwrap_or(8).min(16));
         let base_seed = std::env::var("VERIF_SEED").ok().and_then(|s| s.parse().ok()).unwrap_or(1u64);
         let budget_scale = std::env::var("VERIF_BUDGET_SCALE").ok().and_then(|s| s.parse().ok()).unwrap_or(1.0);
-        BatchOptions { threads, base_seed, budget_scale, max_minimise: 6 }
+        let max_minimise = std::env::var("VERIF_MAX_MIN").ok().and_then(|s| s.parse().ok()).unwrap_or(6);
+        BatchOptions { threads, base_seed, budget_scale, max_minimise }
     }
 }
 
@@ -474,10 +475,10 @@ fn class_key(k: &str) -> String {
     k.chars().filter(|c| !c.is_ascii_digit()).collect()
 }
 
-fn same_violation(o: &RunOutcome, oracle: &str, known: &[KnownFinding]) -> Option<Violation> {
+fn same_violation(o: &RunOutcome, oracle: &str, key_class: &str, known: &[KnownFinding]) -> Option<Violation> {
     o.violations
         .iter()
-        .find(|v| v.oracle == oracle && match_known(known, v).is_none())
+        .find(|v| v.oracle == oracle && class_key(&v.key) == key_class && match_known(known, v).is_none())
         .cloned()
 }
 
@@ -500,7 +501,7 @@ fn make_replay(
     let mut minimised = false;
     if minimise {
         let t0 = Instant::now();
-        let (t, bv, d) = minimise_tape(fam, tier, seed, tape.clone(), &v.oracle, known, 25.0);
+        let (t, bv, d) = minimise_tape(fam, tier, seed, tape.clone(), &v.oracle, &class_key(&v.key), known, 25.0);
         if let Some(bv) = bv {
             tape = t;
             best_v = bv;
@@ -553,6 +554,7 @@ pub fn minimise_tape(
     seed: u64,
     tape: Tape,
     oracle: &str,
+    key_class: &str,
     known: &[KnownFinding],
     wall_budget_s: f64,
 ) -> (Tape, Option<Violation>, u64) {
@@ -564,7 +566,7 @@ pub fn minimise_tape(
     let test = |cand: &Tape, best_v: &mut Option<Violation>, best_digest: &mut u64| -> Option<Tape> {
         let mut ch = Chooser::replay(seed, cand.clone());
         let out = run_once(fam, &mut ch, tier).ok()?;
-        let v = same_violation(&out, oracle, known)?;
+        let v = same_violation(&out, oracle, key_class, known)?;
         *best_v = Some(v);
         *best_digest = out.digest;
         Some(ch.into_tape())
@@ -700,7 +702,7 @@ pub fn replay_file(path: &str, families: &[&dyn Check], quiet: bool) -> i32 {
             2
         }
         Ok(o) => {
-            if let Some(v) = o.violations.iter().find(|v| v.oracle == rf.oracle) {
+            if let Some(v) = o.violations.iter().find(|v| v.oracle == rf.oracle && class_key(&v.key) == class_key(&rf.key)).or_else(|| o.violations.iter().find(|v| v.oracle == rf.oracle)) {
                 let same_digest = o.digest == rf.digest;
                 println!(
                     "REPRODUCED oracle={} digest_match={} key={}",
